@@ -65,24 +65,29 @@ def portRegRemove (port cb : Nat) : Reg :=
 /-- `add_header_callback`: `self.cb.append(...)` -/
 def addHeaderCallback (l : List Reg) (r : Reg) : List Reg := l ++ [r]
 
-/-- `remove_header_callback`, repaired: `for x in list(self.cb): if x == pattern: self.cb.remove(x)`.
-First argument: what is left of the snapshot; second: the live list. -/
-def removeGo (r : Reg) : List Reg → List Reg → List Reg
-  | [], l => l
-  | x :: xs, l => if x.same r then removeGo r xs (l.erase x) else removeGo r xs l
+/-- `list.remove(x)`: removes the first element equal to `x`; `none` = `ValueError` (no such element) -/
+def listRemove (l : List Reg) (x : Reg) : Option (List Reg) :=
+  if l.contains x then some (l.erase x) else none
 
-def removeHeaderCallback (l : List Reg) (r : Reg) : List Reg := removeGo r l l
+/-- `remove_header_callback`, repaired: `for x in list(self.cb): if x == pattern: self.cb.remove(x)`.
+First argument: what is left of the snapshot; second: the live list.  `none` = the `ValueError` of
+`list.remove` escaping (proved impossible: `removeHeaderCallback_eq_filter`). -/
+def removeGo (r : Reg) : List Reg → List Reg → Option (List Reg)
+  | [], l => some l
+  | x :: xs, l => if x.same r then (listRemove l x).bind (removeGo r xs) else removeGo r xs l
+
+def removeHeaderCallback (l : List Reg) (r : Reg) : Option (List Reg) := removeGo r l l
 
 /-- `remove_header_callback` before the fix: `for x in self.cb: if x == pattern: self.cb.remove(x)`.
 The list iterator is an index into the live list (`fuel` bounds the walk; `length + 1` is enough). -/
-def removeLiveGo (r : Reg) : Nat → Nat → List Reg → List Reg
-  | 0, _, l => l
+def removeLiveGo (r : Reg) : Nat → Nat → List Reg → Option (List Reg)
+  | 0, _, l => some l
   | fuel + 1, i, l =>
     match l[i]? with
-    | none => l
-    | some x => if x.same r then removeLiveGo r fuel (i + 1) (l.erase x) else removeLiveGo r fuel (i + 1) l
+    | none => some l
+    | some x => if x.same r then (listRemove l x).bind (removeLiveGo r fuel (i + 1)) else removeLiveGo r fuel (i + 1) l
 
-def removeHeaderCallbackLive (l : List Reg) (r : Reg) : List Reg := removeLiveGo r (l.length + 1) 0 l
+def removeHeaderCallbackLive (l : List Reg) (r : Reg) : Option (List Reg) := removeLiveGo r (l.length + 1) 0 l
 
 /-- `Caller.add_callback`: `if (cb in self.callbacks) is False: self.callbacks.append(cb)` -/
 def callerAdd (l : List Nat) (c : Nat) : List Nat := if l.contains c then l else l ++ [c]
@@ -140,14 +145,17 @@ def Variant.original : Variant := { snapDispatch := false, snapRemove := false }
 /-- what the current source does (Tie A) -/
 def Variant.code : Variant := { snapDispatch := Gen.C07.dispatchSnapshot, snapRemove := Gen.C07.removeSnapshot }
 
-def Variant.remove (v : Variant) (l : List Reg) (r : Reg) : List Reg :=
+def Variant.remove (v : Variant) (l : List Reg) (r : Reg) : Option (List Reg) :=
   if v.snapRemove then removeHeaderCallback l r else removeHeaderCallbackLive l r
 
 /-- run the body of a callback; the Bool says whether it raised -/
 def runActs (v : Variant) : St → List Act → St × Bool
   | st, [] => (st, false)
   | st, .add r :: as => runActs v ({ st with regs := addHeaderCallback st.regs r }.push (.added r)) as
-  | st, .remove r :: as => runActs v ({ st with regs := v.remove st.regs r }.push (.removed r)) as
+  | st, .remove r :: as =>
+    match v.remove st.regs r with
+    | some l => runActs v ({ st with regs := l }.push (.removed r)) as
+    | none => ((st.push (.removed r)).push .raised, true)
   | st, .addAll c :: as => runActs v { st with all := callerAdd st.all c } as
   | st, .removeAll c :: as =>
     match callerRemove st.all c with
